@@ -66,3 +66,18 @@ Section Decode.
     end.
   Definition init_cache (max_len : nat) : list KV * nat := (repeat zero max_len, 0).
 End Decode.
+
+(* ---------------- attention mask helpers (make_attention_mask, make_causal_mask, combine_masks) ---------------- *)
+Definition attn_mask {A B} (f : A -> B -> bool) (q : list A) (k : list B) : list (list bool) := map (fun a => map (f a) k) q.
+(* make_causal_mask: make_attention_mask(arange(n), arange(n), greater_equal) *)
+Definition causal_mask (n : nat) : list (list bool) := attn_mask (fun i j => Nat.leb j i) (seq 0 n) (seq 0 n).
+Definition and_mask (a b : list (list bool)) : list (list bool) :=
+  map (fun rs => map (fun xy => andb (fst xy) (snd xy)) (combine (fst rs) (snd rs))) (combine a b).
+(* combine_masks: None when every argument is None, else the logical and of the others *)
+Definition combine_masks (ms : list (option (list (list bool)))) : option (list (list bool)) :=
+  match flat_map (fun m => match m with Some x => [x] | None => [] end) ms with
+  | [] => None
+  | m :: r => Some (fold_left and_mask r m)
+  end.
+(* the keys a query row may look at *)
+Definition visible {K} (row : list bool) (ks : list K) : list K := map fst (filter snd (combine ks row)).
